@@ -103,6 +103,14 @@ def structures(tier, seed):
             for r in RULES:
                 add(op=op, axes={"X": poss}, arr={"X": pf}, to=pt, cboundary=r, cfill="S" if r == "fill" else None,
                     extra=1 if op == "diff" else 0)
+    # (1b) per-call value against a DIFFERENT grid-level value of the same kind (both symbolic: 0 vs non-zero included)
+    for op in OPS:
+        add(op=op, axes={"X": ("center", "left")}, arr={"X": "center"}, to="left", cboundary="fill", cfill="S", gfill="S", gperiodic=False)
+        add(op=op, axes={"X": ("center", "outer")}, arr={"X": "center"}, to="outer", gboundary="fill", cfill="S", gfill="S")
+    add(op="diff", axes={"X": ("center", "right"), "Y": ("center", "left")}, arr={"X": "center", "Y": "center"}, axis=["X", "Y"], to={"X": "right", "Y": "left"},
+        gboundary="fill", cfill={"X": "S"}, gfill={"X": "S", "Y": "S"}, gperiodic=False)
+    add(op="interp", axes={"X": ("center", "left")}, arr={"X": "left"}, to="center", gboundary="extend", cboundary="fill", cfill={"X": "S"}, gfill="S")
+    add(op="max", axes={"X": ("center", "left")}, arr={"X": "center"}, to="left", gboundary="fill", cboundary="extend", gfill="S", gperiodic=False)
     # (2) rule from the grid default (periodic flag / grid boundary / grid fill) and default shift
     for (pf, pt) in SHIFTS:
         poss = tuple(dict.fromkeys(("center", pf, pt)))
